@@ -68,155 +68,162 @@ def run(ctx):
     ctx.add_sites(res, ctx.sites(rules=("C-SIG", "K-ARG", "K-KEY-LOCAL", "K-SIZE", "K-MEM"), files=files))
 
     # ---- degrees
-    for fn, meth in ROLE_OF.items():
-        v = ctx.view(f"degree.{fn}")
-        # (two modules are called degree.py: pick the directed one)
-        if "directed" not in v.fi.module.name:
+    with res.guard("degrees"):
+        for fn, meth in ROLE_OF.items():
+            v = ctx.view(f"degree.{fn}")
+            # (two modules are called degree.py: pick the directed one)
+            if "directed" not in v.fi.module.name:
+                v = ctx.view(ctx.prog.functions[f"hypergraphx.measures.directed.degree.{fn}"])
+            f = v.fi.short
+            calls = [n for n in ast.walk(v.fi.node) if isinstance(n, ast.Call) and isinstance(n.func, ast.Attribute) and n.func.attr in ("get_source_edges", "get_target_edges", "get_incident_edges")]
+            res.check(bool(calls) and all(c.func.attr == meth for c in calls), "K-ROLE", f, norm(calls[0]) if calls else meth, "role", f"{fn} does not count the hyperedges returned by {meth}", loc(v.fi, v.fi.node))
+            res.check(all(c.args and norm(c.args[0]) == "node" for c in calls), "K-ROLE", f, norm(calls[0]) if calls else meth, "same-node", "the incident list of another node is counted", loc(v.fi, v.fi.node))
+            rets = [n for n in ast.walk(v.fi.node) if isinstance(n, ast.Return)]
+            res.check(all(isinstance(r.value, ast.Call) and isinstance(r.value.func, ast.Name) and r.value.func.id == "len" for r in rets), "K-ROLE", f, norm(rets[0]), "len", "the degree is not the length of the role-specific incident list", loc(v.fi, rets[0]))
+            with res.guard("F.check_usectx, res, v.fi, order, size"):
+                F.check_use(ctx, res, v.fi, ("order", "size"))
+            with res.guard("F.check_forwardingctx, res, v.fi"):
+                F.check_forwarding(ctx, res, [v.fi])
+            with res.guard("M.check_none_testsctx, res, v.fi"):
+                M.check_none_tests(ctx, res, v.fi)
+        for fn, inner in (("in_degree_sequence", "in_degree"), ("out_degree_sequence", "out_degree")):
             v = ctx.view(ctx.prog.functions[f"hypergraphx.measures.directed.degree.{fn}"])
-        f = v.fi.short
-        calls = [n for n in ast.walk(v.fi.node) if isinstance(n, ast.Call) and isinstance(n.func, ast.Attribute) and n.func.attr in ("get_source_edges", "get_target_edges", "get_incident_edges")]
-        res.check(bool(calls) and all(c.func.attr == meth for c in calls), "K-ROLE", f, norm(calls[0]) if calls else meth, "role", f"{fn} does not count the hyperedges returned by {meth}", loc(v.fi, v.fi.node))
-        res.check(all(c.args and norm(c.args[0]) == "node" for c in calls), "K-ROLE", f, norm(calls[0]) if calls else meth, "same-node", "the incident list of another node is counted", loc(v.fi, v.fi.node))
-        rets = [n for n in ast.walk(v.fi.node) if isinstance(n, ast.Return)]
-        res.check(all(isinstance(r.value, ast.Call) and isinstance(r.value.func, ast.Name) and r.value.func.id == "len" for r in rets), "K-ROLE", f, norm(rets[0]), "len", "the degree is not the length of the role-specific incident list", loc(v.fi, rets[0]))
-        F.check_use(ctx, res, v.fi, ("order", "size"))
-        F.check_forwarding(ctx, res, [v.fi])
-        M.check_none_tests(ctx, res, v.fi)
-    for fn, inner in (("in_degree_sequence", "in_degree"), ("out_degree_sequence", "out_degree")):
-        v = ctx.view(ctx.prog.functions[f"hypergraphx.measures.directed.degree.{fn}"])
-        f = v.fi.short
-        comps = [n for n in ast.walk(v.fi.node) if isinstance(n, ast.DictComp)]
-        if not comps:
-            raise AnalysisError(f"{f}: dict comprehension idiom not found")
-        for c in comps:
-            g = c.generators[0]
-            tgt = g.target.id if isinstance(g.target, ast.Name) else None
-            it_ok = isinstance(g.iter, ast.Call) and isinstance(g.iter.func, ast.Attribute) and g.iter.func.attr == "get_nodes" and not g.ifs
-            val_ok = isinstance(c.value, ast.Call) and isinstance(c.value.func, ast.Name) and c.value.func.id == inner and len(c.value.args) >= 2 and norm(c.value.args[1]) == tgt and isinstance(c.key, ast.Name) and c.key.id == tgt
-            res.check(it_ok, "D-SEQ", f, norm(c), "all-nodes", "the sequence does not list every node of get_nodes() once", loc(v.fi, c))
-            res.check(val_ok, "D-SEQ", f, norm(c), "same-node", f"the value stored for a node is not {inner}(hg, <that node>)", loc(v.fi, c))
-        F.check_forwarding(ctx, res, [v.fi])
-        F.check_use(ctx, res, v.fi, ("order", "size"))
-
+            f = v.fi.short
+            comps = [n for n in ast.walk(v.fi.node) if isinstance(n, ast.DictComp)]
+            if not comps:
+                raise AnalysisError(f"{f}: dict comprehension idiom not found")
+            for c in comps:
+                g = c.generators[0]
+                tgt = g.target.id if isinstance(g.target, ast.Name) else None
+                it_ok = isinstance(g.iter, ast.Call) and isinstance(g.iter.func, ast.Attribute) and g.iter.func.attr == "get_nodes" and not g.ifs
+                val_ok = isinstance(c.value, ast.Call) and isinstance(c.value.func, ast.Name) and c.value.func.id == inner and len(c.value.args) >= 2 and norm(c.value.args[1]) == tgt and isinstance(c.key, ast.Name) and c.key.id == tgt
+                res.check(it_ok, "D-SEQ", f, norm(c), "all-nodes", "the sequence does not list every node of get_nodes() once", loc(v.fi, c))
+                res.check(val_ok, "D-SEQ", f, norm(c), "same-node", f"the value stored for a node is not {inner}(hg, <that node>)", loc(v.fi, c))
+            with res.guard("F.check_forwardingctx, res, v.fi"):
+                F.check_forwarding(ctx, res, [v.fi])
+            with res.guard("F.check_usectx, res, v.fi, order, size"):
+                F.check_use(ctx, res, v.fi, ("order", "size"))
     # ---- signature vector
-    v = ctx.view("hyperedge_signature.hyperedge_signature_vector")
-    f = v.fi.short
-    augs = [n for n in walk_no_nested(v.fi.node) if isinstance(n, ast.AugAssign) and isinstance(n.target, ast.Subscript)]
-    if len(augs) != 1:
-        raise AnalysisError(f"{f}: accumulation idiom not recognised")
-    a = augs[0]
-    res.check(isinstance(a.op, ast.Add) and isinstance(a.value, ast.Constant) and a.value.value == 1, "D-INC", f, norm(a), "one-per-edge", "a hyperedge does not contribute exactly 1 to its cell", loc(v.fi, a))
-    idx = a.target.slice.elts if isinstance(a.target.slice, ast.Tuple) else []
-    roles = []
-    for e in idx:
-        role = None
-        names = [x.id for x in ast.walk(e) if isinstance(x, ast.Name)]
-        for nm in names:
-            defs = [m for m in walk_no_nested(v.fi.node) if isinstance(m, ast.Assign) and isinstance(m.targets[0], ast.Name) and m.targets[0].id == nm]
-            for dfn in defs:
-                for x in ast.walk(dfn.value):
-                    if isinstance(x, ast.Subscript) and isinstance(x.slice, ast.Constant) and x.slice.value in (0, 1):
-                        k = elem_of(v.kind(x))
-                        role = (k.role if isinstance(k, Atom) and k.role else {0: "SRC", 1: "TGT"}[x.slice.value])
-        off = isinstance(e, ast.BinOp) and isinstance(e.op, ast.Sub) and isinstance(e.right, ast.Constant) and e.right.value == 1
-        roles.append((role, off))
-    res.check(len(roles) == 2 and roles[0][0] == "SRC" and roles[1][0] == "TGT", "K-ROLE", f, norm(a.target), "row=source,col=target", f"the signature cell is indexed by ({roles[0][0] if roles else '?'}, {roles[1][0] if len(roles) > 1 else '?'}) sizes instead of (source, target)", loc(v.fi, a))
-    res.check(len(roles) == 2 and all(o for _, o in roles), "K-ROLE", f, norm(a.target), "size-1", "cell indices are not (size - 1)", loc(v.fi, a))
-    lp = v.enclosing(a, (ast.For,))
-    zeros = [n for n in walk_no_nested(v.fi.node) if isinstance(n, ast.Call) and isinstance(n.func, ast.Attribute) and n.func.attr == "zeros"]
-    bound_names = {x.id for z in zeros for x in ast.walk(z) if isinstance(x, ast.Name)} - {"np"}
-    ok = False
-    why = "the listing of hyperedges is not bounded by the bound that sized the array: a larger hyperedge indexes outside the array (or is counted)"
-    if lp is not None and isinstance(lp.iter, ast.Call) and isinstance(lp.iter.func, ast.Attribute) and lp.iter.func.attr == "get_edges":
-        kw = {k.arg: k.value for k in lp.iter.keywords}
-        ok = "size" in kw and norm(kw["size"]) in bound_names and "up_to" in kw and isinstance(kw["up_to"], ast.Constant) and kw["up_to"].value is True
-    if not ok and lp is not None:
-        # explicit guard idiom inside the loop
-        for n in ast.walk(lp):
-            if isinstance(n, ast.If) and any(nm in norm(n.test) for nm in bound_names) and ("<=" in norm(n.test) or ">" in norm(n.test)):
-                ok = True
-    res.check(ok, "B-BOUND", f, norm(lp.iter) if lp is not None else "for hyperedge in ...", "bounded-listing", why, loc(v.fi, lp if lp is not None else v.fi.node))
-
+    with res.guard("signature vector"):
+        v = ctx.view("hyperedge_signature.hyperedge_signature_vector")
+        f = v.fi.short
+        augs = [n for n in walk_no_nested(v.fi.node) if isinstance(n, ast.AugAssign) and isinstance(n.target, ast.Subscript)]
+        if len(augs) != 1:
+            raise AnalysisError(f"{f}: accumulation idiom not recognised")
+        a = augs[0]
+        res.check(isinstance(a.op, ast.Add) and isinstance(a.value, ast.Constant) and a.value.value == 1, "D-INC", f, norm(a), "one-per-edge", "a hyperedge does not contribute exactly 1 to its cell", loc(v.fi, a))
+        idx = a.target.slice.elts if isinstance(a.target.slice, ast.Tuple) else []
+        roles = []
+        for e in idx:
+            role = None
+            names = [x.id for x in ast.walk(e) if isinstance(x, ast.Name)]
+            for nm in names:
+                defs = [m for m in walk_no_nested(v.fi.node) if isinstance(m, ast.Assign) and isinstance(m.targets[0], ast.Name) and m.targets[0].id == nm]
+                for dfn in defs:
+                    for x in ast.walk(dfn.value):
+                        if isinstance(x, ast.Subscript) and isinstance(x.slice, ast.Constant) and x.slice.value in (0, 1):
+                            k = elem_of(v.kind(x))
+                            role = (k.role if isinstance(k, Atom) and k.role else {0: "SRC", 1: "TGT"}[x.slice.value])
+            off = isinstance(e, ast.BinOp) and isinstance(e.op, ast.Sub) and isinstance(e.right, ast.Constant) and e.right.value == 1
+            roles.append((role, off))
+        res.check(len(roles) == 2 and roles[0][0] == "SRC" and roles[1][0] == "TGT", "K-ROLE", f, norm(a.target), "row=source,col=target", f"the signature cell is indexed by ({roles[0][0] if roles else '?'}, {roles[1][0] if len(roles) > 1 else '?'}) sizes instead of (source, target)", loc(v.fi, a))
+        res.check(len(roles) == 2 and all(o for _, o in roles), "K-ROLE", f, norm(a.target), "size-1", "cell indices are not (size - 1)", loc(v.fi, a))
+        lp = v.enclosing(a, (ast.For,))
+        zeros = [n for n in walk_no_nested(v.fi.node) if isinstance(n, ast.Call) and isinstance(n.func, ast.Attribute) and n.func.attr == "zeros"]
+        bound_names = {x.id for z in zeros for x in ast.walk(z) if isinstance(x, ast.Name)} - {"np"}
+        ok = False
+        why = "the listing of hyperedges is not bounded by the bound that sized the array: a larger hyperedge indexes outside the array (or is counted)"
+        if lp is not None and isinstance(lp.iter, ast.Call) and isinstance(lp.iter.func, ast.Attribute) and lp.iter.func.attr == "get_edges":
+            kw = {k.arg: k.value for k in lp.iter.keywords}
+            ok = "size" in kw and norm(kw["size"]) in bound_names and "up_to" in kw and isinstance(kw["up_to"], ast.Constant) and kw["up_to"].value is True
+        if not ok and lp is not None:
+            # explicit guard idiom inside the loop
+            for n in ast.walk(lp):
+                if isinstance(n, ast.If) and any(nm in norm(n.test) for nm in bound_names) and ("<=" in norm(n.test) or ">" in norm(n.test)):
+                    ok = True
+        res.check(ok, "B-BOUND", f, norm(lp.iter) if lp is not None else "for hyperedge in ...", "bounded-listing", why, loc(v.fi, lp if lp is not None else v.fi.node))
     # ---- reciprocity siblings
-    for d in SIBLINGS:
-        v = ctx.view(d)
-        f = v.fi.short
-        accs = _accumulators(v.fi.node)
-        loops = [n for n in v.fi.node.body if isinstance(n, ast.For)]
-        if len(loops) < 3:
-            raise AnalysisError(f"{f}: expected counting / matching / ratio loops")
-        first = loops[0]
-        guards = []
-        for n in ast.walk(first):
-            if isinstance(n, ast.If):
-                for atom, _ in _atoms(n.test, True):
-                    if isinstance(atom, ast.Compare) and len(atom.ops) == 2 and norm(atom.comparators[1]) == "max_hyperedge_size":
-                        guards.append((n, atom))
-        res.check(len(guards) == 1, "M-SIZEGUARD", f, norm(guards[0][1]) if guards else "2 <= size <= max_hyperedge_size", "exists", "the counting loop has no (single) size guard against max_hyperedge_size", loc(v.fi, first))
-        for ifn, atom in guards:
-            ok = isinstance(atom.left, ast.Constant) and atom.left.value == 2 and all(isinstance(o, ast.LtE) for o in atom.ops)
-            res.check(ok, "M-SIZEGUARD", f, norm(atom), "2<=size<=B", "the size guard is not `2 <= size <= max_hyperedge_size`", loc(v.fi, ifn))
-            sz = atom.comparators[0]
-            defs = [m for m in ast.walk(first) if isinstance(m, ast.Assign) and isinstance(m.targets[0], ast.Name) and isinstance(sz, ast.Name) and m.targets[0].id == sz.id]
-            k = v.kind(defs[-1].value) if defs else None
-            from ..kinds import SIZE
+    with res.guard("reciprocity siblings"):
+        for d in SIBLINGS:
+            v = ctx.view(d)
+            f = v.fi.short
+            accs = _accumulators(v.fi.node)
+            loops = [n for n in v.fi.node.body if isinstance(n, ast.For)]
+            if len(loops) < 3:
+                raise AnalysisError(f"{f}: expected counting / matching / ratio loops")
+            first = loops[0]
+            guards = []
+            for n in ast.walk(first):
+                if isinstance(n, ast.If):
+                    for atom, _ in _atoms(n.test, True):
+                        if isinstance(atom, ast.Compare) and len(atom.ops) == 2 and norm(atom.comparators[1]) == "max_hyperedge_size":
+                            guards.append((n, atom))
+            res.check(len(guards) == 1, "M-SIZEGUARD", f, norm(guards[0][1]) if guards else "2 <= size <= max_hyperedge_size", "exists", "the counting loop has no (single) size guard against max_hyperedge_size", loc(v.fi, first))
+            for ifn, atom in guards:
+                ok = isinstance(atom.left, ast.Constant) and atom.left.value == 2 and all(isinstance(o, ast.LtE) for o in atom.ops)
+                res.check(ok, "M-SIZEGUARD", f, norm(atom), "2<=size<=B", "the size guard is not `2 <= size <= max_hyperedge_size`", loc(v.fi, ifn))
+                sz = atom.comparators[0]
+                defs = [m for m in ast.walk(first) if isinstance(m, ast.Assign) and isinstance(m.targets[0], ast.Name) and isinstance(sz, ast.Name) and m.targets[0].id == sz.id]
+                k = v.kind(defs[-1].value) if defs else None
+                from ..kinds import SIZE
 
-            res.add("M-SIZEGUARD", f, norm(defs[-1]) if defs else norm(sz), "size=|src|+|tgt|", "ok" if k == SIZE else "unknown", "" if k == SIZE else f"kind {k!r}", loc(v.fi, ifn))
-            lab = _implied_branch(ifn.test, atom, True)
-            tid = v.cfg.by_ast[id(ifn.test)]
-            for w, name in _writes_to(accs, first):
-                wid = v.cfg_id(w)
-                dom = lab is not None and v.cfg.branch_dominated(tid, lab, wid)
-                res.check(dom, "G-DOM", f, norm(w), name, f"`{name}` is updated for hyperedges that fail the size guard: hyperedges larger than the bound influence the result", loc(v.fi, w))
-        # D-INC: tot / rec incremented by 1
-        for lp_ in loops[:2]:
-            for n in ast.walk(lp_):
-                if isinstance(n, ast.AugAssign) and isinstance(n.target, ast.Subscript) and norm(n.target.value) in ("tot", "rec"):
-                    res.check(isinstance(n.op, ast.Add) and isinstance(n.value, ast.Constant) and n.value.value == 1, "D-INC", f, norm(n), norm(n.target.value), "a hyperedge is not counted exactly once", loc(v.fi, n))
-                    depth = len([x for x in v.enclosing_all(n, (ast.For, ast.While))])
-                    res.check(depth == 1, "D-INC", f, norm(n), norm(n.target.value) + ":depth", "the count is incremented inside an inner loop: a hyperedge can be counted several times", loc(v.fi, n))
-        # G-RATIO
-        last = loops[-1]
-        divs = [n for n in ast.walk(last) if isinstance(n, ast.BinOp) and isinstance(n.op, ast.Div)]
-        res.check(bool(divs), "G-RATIO", f, "rec[size] / tot[size]", "ratio", "the ratio rec/tot is not computed", loc(v.fi, last))
-        for dv in divs:
-            ifs = v.enclosing_all(dv, (ast.If,))
-            ok = any("tot" in norm(i.test) and ("!= 0" in norm(i.test) or "> 0" in norm(i.test)) and any(dv is x for b in i.body for x in ast.walk(b)) for i in ifs)
-            res.check(ok and norm(dv.left).startswith("rec") and norm(dv.right).startswith("tot"), "G-RATIO", f, norm(dv), "guarded", "the ratio is not rec/tot under a `tot != 0` guard", loc(v.fi, dv))
-            for i in ifs:
-                z = [x for b in i.orelse for x in ast.walk(b) if isinstance(x, ast.Assign) and isinstance(x.value, ast.Constant) and x.value.value == 0]
-                res.check(bool(z), "G-RATIO", f, norm(i.test), "zero-otherwise", "sizes without hyperedges do not yield 0", loc(v.fi, i))
+                res.add("M-SIZEGUARD", f, norm(defs[-1]) if defs else norm(sz), "size=|src|+|tgt|", "ok" if k == SIZE else "unknown", "" if k == SIZE else f"kind {k!r}", loc(v.fi, ifn))
+                lab = _implied_branch(ifn.test, atom, True)
+                tid = v.cfg.by_ast[id(ifn.test)]
+                for w, name in _writes_to(accs, first):
+                    wid = v.cfg_id(w)
+                    dom = lab is not None and v.cfg.branch_dominated(tid, lab, wid)
+                    res.check(dom, "G-DOM", f, norm(w), name, f"`{name}` is updated for hyperedges that fail the size guard: hyperedges larger than the bound influence the result", loc(v.fi, w))
+            # D-INC: tot / rec incremented by 1
+            for lp_ in loops[:2]:
+                for n in ast.walk(lp_):
+                    if isinstance(n, ast.AugAssign) and isinstance(n.target, ast.Subscript) and norm(n.target.value) in ("tot", "rec"):
+                        res.check(isinstance(n.op, ast.Add) and isinstance(n.value, ast.Constant) and n.value.value == 1, "D-INC", f, norm(n), norm(n.target.value), "a hyperedge is not counted exactly once", loc(v.fi, n))
+                        depth = len([x for x in v.enclosing_all(n, (ast.For, ast.While))])
+                        res.check(depth == 1, "D-INC", f, norm(n), norm(n.target.value) + ":depth", "the count is incremented inside an inner loop: a hyperedge can be counted several times", loc(v.fi, n))
+            # G-RATIO
+            last = loops[-1]
+            divs = [n for n in ast.walk(last) if isinstance(n, ast.BinOp) and isinstance(n.op, ast.Div)]
+            res.check(bool(divs), "G-RATIO", f, "rec[size] / tot[size]", "ratio", "the ratio rec/tot is not computed", loc(v.fi, last))
+            for dv in divs:
+                ifs = v.enclosing_all(dv, (ast.If,))
+                ok = any("tot" in norm(i.test) and ("!= 0" in norm(i.test) or "> 0" in norm(i.test)) and any(dv is x for b in i.body for x in ast.walk(b)) for i in ifs)
+                res.check(ok and norm(dv.left).startswith("rec") and norm(dv.right).startswith("tot"), "G-RATIO", f, norm(dv), "guarded", "the ratio is not rec/tot under a `tot != 0` guard", loc(v.fi, dv))
+                for i in ifs:
+                    z = [x for b in i.orelse for x in ast.walk(b) if isinstance(x, ast.Assign) and isinstance(x.value, ast.Constant) and x.value.value == 0]
+                    res.check(bool(z), "G-RATIO", f, norm(i.test), "zero-otherwise", "sizes without hyperedges do not yield 0", loc(v.fi, i))
     # ---- E-SHAREDVAL: values stored into an accumulator inside a loop are created in that very iteration
-    res.rules["E-SHAREDVAL"] = "a mutable object stored as the value of several accumulator entries is created per entry (no one set shared between keys) when entries are later updated in place"
-    for d in SIBLINGS:
-        v = ctx.view(d)
-        f = v.fi.short
-        accs = _accumulators(v.fi.node)
-        inplace = set()
-        for n in ast.walk(v.fi.node):
-            if isinstance(n, ast.Call) and isinstance(n.func, ast.Attribute) and n.func.attr in ("update", "add", "append", "extend", "discard", "remove", "intersection_update", "difference_update") and isinstance(n.func.value, ast.Subscript) and isinstance(n.func.value.value, ast.Name) and n.func.value.value.id in accs:
-                inplace.add(n.func.value.value.id)
-            if isinstance(n, ast.AugAssign) and isinstance(n.target, ast.Subscript) and isinstance(n.target.value, ast.Name) and n.target.value.id in accs and isinstance(n.op, (ast.BitOr, ast.BitAnd, ast.Sub)):
-                inplace.add(n.target.value.id)
-        n_checked = 0
-        for n in ast.walk(v.fi.node):
-            if isinstance(n, ast.Assign) and isinstance(n.targets[0], ast.Subscript) and isinstance(n.targets[0].value, ast.Name) and n.targets[0].value.id in accs and isinstance(n.value, ast.Name):
-                acc, val = n.targets[0].value.id, n.value.id
-                loops = v.enclosing_all(n, (ast.For, ast.While))
-                if not loops:
-                    continue
-                inner = loops[0]
-                defs = [m for m in ast.walk(v.fi.node) if isinstance(m, ast.Assign) and isinstance(m.targets[0], ast.Name) and m.targets[0].id == val]
-                mutable = [m for m in defs if isinstance(m.value, (ast.Set, ast.List, ast.Dict, ast.SetComp, ast.ListComp, ast.DictComp)) or (isinstance(m.value, ast.Call) and isinstance(m.value.func, ast.Name) and m.value.func.id in ("set", "list", "dict"))]
-                outside = [m for m in mutable if not any(m is x for x in ast.walk(inner))]
-                if mutable:
-                    n_checked += 1
-                    bad = bool(outside) and acc in inplace
-                    res.check(not bad, "E-SHAREDVAL", f, norm(n), acc, f"`{val}` is created once outside the loop over the keys and stored under each of them, and entries of `{acc}` are updated in place elsewhere: an update of one entry leaks into all entries sharing the object", loc(v.fi, n))
-        res.ok("E-SHAREDVAL", f, f"{n_checked} aliasing stores examined; in-place updated accumulators: {sorted(inplace)}", "scan", loc(v.fi, v.fi.node))
-    # exact: swapped pair
-    v = ctx.view("reciprocity.exact_reciprocity")
-    sw = [n for n in walk_no_nested(v.fi.node) if isinstance(n, ast.Tuple) and len(n.elts) == 2 and all(isinstance(e, ast.Subscript) and isinstance(e.slice, ast.Constant) for e in n.elts) and [e.slice.value for e in n.elts] == [1, 0] and norm(n.elts[0].value) == norm(n.elts[1].value)]
-    res.check(bool(sw), "K-ROLE", v.fi.short, norm(sw[0]) if sw else "(edge[1], edge[0])", "swapped-pair", "exact reciprocity does not look up the hyperedge with source and target exchanged", loc(v.fi, v.fi.node))
+    with res.guard("E-SHAREDVAL: values stored into an accumulator inside a loop are created in that very iteration"):
+        res.rules["E-SHAREDVAL"] = "a mutable object stored as the value of several accumulator entries is created per entry (no one set shared between keys) when entries are later updated in place"
+        for d in SIBLINGS:
+            v = ctx.view(d)
+            f = v.fi.short
+            accs = _accumulators(v.fi.node)
+            inplace = set()
+            for n in ast.walk(v.fi.node):
+                if isinstance(n, ast.Call) and isinstance(n.func, ast.Attribute) and n.func.attr in ("update", "add", "append", "extend", "discard", "remove", "intersection_update", "difference_update") and isinstance(n.func.value, ast.Subscript) and isinstance(n.func.value.value, ast.Name) and n.func.value.value.id in accs:
+                    inplace.add(n.func.value.value.id)
+                if isinstance(n, ast.AugAssign) and isinstance(n.target, ast.Subscript) and isinstance(n.target.value, ast.Name) and n.target.value.id in accs and isinstance(n.op, (ast.BitOr, ast.BitAnd, ast.Sub)):
+                    inplace.add(n.target.value.id)
+            n_checked = 0
+            for n in ast.walk(v.fi.node):
+                if isinstance(n, ast.Assign) and isinstance(n.targets[0], ast.Subscript) and isinstance(n.targets[0].value, ast.Name) and n.targets[0].value.id in accs and isinstance(n.value, ast.Name):
+                    acc, val = n.targets[0].value.id, n.value.id
+                    loops = v.enclosing_all(n, (ast.For, ast.While))
+                    if not loops:
+                        continue
+                    inner = loops[0]
+                    defs = [m for m in ast.walk(v.fi.node) if isinstance(m, ast.Assign) and isinstance(m.targets[0], ast.Name) and m.targets[0].id == val]
+                    mutable = [m for m in defs if isinstance(m.value, (ast.Set, ast.List, ast.Dict, ast.SetComp, ast.ListComp, ast.DictComp)) or (isinstance(m.value, ast.Call) and isinstance(m.value.func, ast.Name) and m.value.func.id in ("set", "list", "dict"))]
+                    outside = [m for m in mutable if not any(m is x for x in ast.walk(inner))]
+                    if mutable:
+                        n_checked += 1
+                        bad = bool(outside) and acc in inplace
+                        res.check(not bad, "E-SHAREDVAL", f, norm(n), acc, f"`{val}` is created once outside the loop over the keys and stored under each of them, and entries of `{acc}` are updated in place elsewhere: an update of one entry leaks into all entries sharing the object", loc(v.fi, n))
+            res.ok("E-SHAREDVAL", f, f"{n_checked} aliasing stores examined; in-place updated accumulators: {sorted(inplace)}", "scan", loc(v.fi, v.fi.node))
+        # exact: swapped pair
+        v = ctx.view("reciprocity.exact_reciprocity")
+        sw = [n for n in walk_no_nested(v.fi.node) if isinstance(n, ast.Tuple) and len(n.elts) == 2 and all(isinstance(e, ast.Subscript) and isinstance(e.slice, ast.Constant) for e in n.elts) and [e.slice.value for e in n.elts] == [1, 0] and norm(n.elts[0].value) == norm(n.elts[1].value)]
+        res.check(bool(sw), "K-ROLE", v.fi.short, norm(sw[0]) if sw else "(edge[1], edge[0])", "swapped-pair", "exact reciprocity does not look up the hyperedge with source and target exchanged", loc(v.fi, v.fi.node))
     res.assumptions += ["in_degree counts hyperedges in which the node is a SOURCE and out_degree those in which it is a TARGET - the property's own wording, frozen in ROLE_OF"]
     return res
